@@ -365,18 +365,25 @@ def runtime_module(ok, log=lambda s: None):
     out = os.path.join(OBJ, "runtime-" + h + ".bc")
     if not os.path.exists(out):
         t0 = time.time()
-        # drop stale runtime modules (disk hygiene): keep the three most recent ones
+        # drop stale runtime modules (disk hygiene): keep the three most recent ones and everything used in the last 6 hours
+        # (a long thorough run of another check, or a seeded-fault run in a scratch worktree, may still be reading its module)
         olds = sorted((fn for fn in os.listdir(OBJ) if fn.startswith("runtime-") and fn.endswith(".bc")),
                       key=lambda fn: os.path.getmtime(os.path.join(OBJ, fn)))
         for fn in olds[:-3]:
             try:
-                os.unlink(os.path.join(OBJ, fn))
+                if time.time() - os.path.getmtime(os.path.join(OBJ, fn)) > 6 * 3600:
+                    os.unlink(os.path.join(OBJ, fn))
             except OSError:
                 pass
         tmp = out + ".tmp%d" % os.getpid()
         link_bc([r["bc"] for r in ok], tmp)
         os.replace(tmp, out)
         log("linked runtime module in %.1fs" % (time.time() - t0))
+    else:
+        try:
+            os.utime(out)  # mark as in use
+        except OSError:
+            pass
     return out
 
 
